@@ -15,7 +15,7 @@ oracle (the properties on the real code alone, no Lean involved)
   C04_total_class, C09_total_class (every rejection is a JaqalError), C04_no_calls, C04_header, C04_shape,
   C04_idempotent, C04_arity, C04_meaning_ref (a reference interpreter written here,
   call-by-value on the unexpanded circuit, vs the expanded circuit), C09_spell (expand_subcircuits == the tree map
-  `spell`), C09_none_left, C09_flat, C09_header, C09_idempotent
+  `spell`), C09_none_left, C09_flat, C09_header, C09_idempotent, C09_macro_clash, C09_rejects_only_clash_or_parametrised_bounds
 
 Exit status 0 iff no disagreement and no oracle failure.
 """
@@ -64,8 +64,13 @@ class Gen:
         self.regs = {}  # name -> size
         self.qalias = []
         self.ralias = {}  # name -> size
-        self.macros = []  # (name, [(param, role)])
+        self.macros = []  # (name, [(param, role)], contains a subcircuit block (transitively))
+        self._cur_has_sub = False
         self.anon = {}  # nogates: gate name -> signature
+        # macros named like the bounding gates (only where no native gate has that name)
+        self.special = []
+        if mode != "gates" and rng.random() < 0.35:
+            self.special = rng.sample(["prepare_all", "measure_all"], rng.randrange(1, 3))
 
     def header(self):
         r = self.rng
@@ -195,16 +200,20 @@ class Gen:
         return self.whole_reg(params)
 
     # --- statements
-    def gate(self, params):
+    def gate(self, params, nosub=False):
         r = self.rng
-        if self.macros and r.random() < 0.45:
-            name, mps = r.choice(self.macros)
+        # the builder refuses a call of a subcircuit-containing macro inside a parallel or subcircuit block
+        cands = [m for m in self.macros if not (nosub and m[2] and r.random() < 0.97)]
+        if cands and r.random() < 0.45:
+            name, mps, hs = r.choice(cands)
+            if hs:
+                self._cur_has_sub = True
             return name + "".join(" " + self.arg_for(role, params) for _, role in mps)
-        if self.mode == "gates":
+        if self.mode != "nogates":
             name = r.choice(list(SIG))
             sig = SIG[name]
         else:
-            name = r.choice(["G0", "G1", "G2", "G3", "prepare_all", "measure_all"])
+            name = r.choice([g for g in ["G0", "G1", "G2", "G3", "prepare_all", "measure_all"] if g not in self.special])
             if name not in self.anon:
                 self.anon[name] = "" if name.endswith("_all") else "".join(r.choice("qqi") for _ in range(r.randrange(0, 4)))
             sig = self.anon[name]
@@ -216,16 +225,17 @@ class Gen:
         for _ in range(r.randrange(1, 4 if depth else 5)):
             c = r.random()
             if depth >= 3 or c < 0.5:
-                items.append(self.gate(params))
+                items.append(self.gate(params, in_sub))
             elif c < 0.65:
                 items.append(f"loop {self.count(params)} " + self.block(params, depth + 1, in_sub, in_macro))
             elif c < 0.8:
                 items.append(self.par(params, depth + 1, in_sub, in_macro))
             elif c < 0.95 and not in_sub:
+                self._cur_has_sub = True
                 cnt = (self.count(params) + " ") if r.random() < 0.6 else ""
                 items.append(f"subcircuit {cnt}" + self.seq(params, depth + 1, True, in_macro))
             else:
-                items.append(self.gate(params))
+                items.append(self.gate(params, in_sub))
         return items
 
     def seq(self, params, depth, in_sub, in_macro):
@@ -238,7 +248,7 @@ class Gen:
             if depth < 3 and r.random() < 0.3:
                 items.append(self.seq(params, depth + 1, True, in_macro))  # no subcircuit inside a parallel block
             else:
-                items.append(self.gate(params))
+                items.append(self.gate(params, True))
         return "< " + " | ".join(items) + " >"
 
     def block(self, params, depth, in_sub, in_macro):
@@ -248,10 +258,11 @@ class Gen:
         r = self.rng
         names = r.sample(PARAM_POOL, r.randrange(0, 4))
         params = [(p, r.choice(["q", "q", "i", "i", "reg"])) for p in names]
+        self._cur_has_sub = False
         body = self.block(params, 1, False, True)
-        name = f"M{idx}"
+        name = self.special.pop() if self.special and r.random() < 0.6 else f"M{idx}"
         text = f"macro {name} " + " ".join(names) + (" " if names else "") + body
-        self.macros.append((name, params))
+        self.macros.append((name, params, self._cur_has_sub))
         return text
 
     def program(self):
@@ -265,7 +276,9 @@ class Gen:
 
 
 def gen_case(rng, idx, thorough):
-    mode = "gates" if rng.random() < 0.7 else "nogates"
+    c0 = rng.random()
+    # "gates_nopm": the injected gate set WITHOUT prepare_all / measure_all
+    mode = "gates" if c0 < 0.6 else "nogates" if c0 < 0.85 else "gates_nopm"
     wild = rng.choice([0.0, 0.0, 0.0, 0.01, 0.03])
     g = Gen(rng, mode, wild)
     text = g.program()
@@ -280,13 +293,13 @@ def gen_case(rng, idx, thorough):
         case["mutate"] = [rng.randrange(0, 6), rng.choice(["drop", "add"])]
     c = rng.random()
     if c < 0.15:
-        case["prepare"] = rng.choice(["prepare_all", "X", "P", "nosuch", "G0"])
+        case["prepare"] = rng.choice(["prepare_all", "X", "P", "nosuch", "G0", "M0", "measure_all"])
     elif c < 0.3:
         case["prepare"] = {"name": rng.choice(["prep", "prepare_all"]), "busy": rng.random() < 0.5,
                            "params": rng.choice([[], [], [], [["q", "QUBIT"]]])}
     c = rng.random()
     if c < 0.15:
-        case["measure"] = rng.choice(["measure_all", "Y", "PF", "nosuch", "G1"])
+        case["measure"] = rng.choice(["measure_all", "Y", "PF", "nosuch", "G1", "M1", "prepare_all"])
     elif c < 0.3:
         case["measure"] = {"name": rng.choice(["meas", "measure_all"]), "busy": rng.random() < 0.5,
                            "params": rng.choice([[], [], [], [["k", "INT"]]])}
@@ -305,6 +318,8 @@ def build_circuit(case):
     kw = {"autoload_pulses": False}
     if case["mode"] == "gates":
         kw["inject_pulses"] = GATES
+    elif case["mode"] == "gates_nopm":
+        kw["inject_pulses"] = {k: v for k, v in GATES.items() if k not in ("prepare_all", "measure_all")}
     c = parse_jaqal_string(case["text"], **kw)
     if case.get("mutate"):
         which, how = case["mutate"]
@@ -774,11 +789,21 @@ def oracles(case, res, out):
         rec("C09_flat", flat(d2["body"]) == flat_bracketed(d0["body"], pf, mf), "flat sequence")
         again = outcome(lambda: dump.circuit(expand_subcircuits(expand_subcircuits(c, p, m), p, m)))
         rec("C09_idempotent", again == es, "second expansion differs")
-    elif has_sub(d0["body"]) or any(has_sub(m["body"]) for m in d0["macros"]):
-        rec("C09_rejects_only_parametrised_bounds", es == {"err": "JaqalError"} and
-            any(isinstance(x, dict) and x["params"] for x in (case["prepare"], case["measure"])) or
-            any(isinstance(x, str) and x in c.native_gates and c.native_gates[x].parameters for x in (case["prepare"], case["measure"])),
-            f"got {es}")
+    # a bounding NAME (the caller's string or the default) that is a macro of the circuit: always rejected
+    def bname(user, dflt):
+        return None if isinstance(user, dict) else (user if isinstance(user, str) else dflt)
+
+    clash = [n for n in (bname(case["prepare"], "prepare_all"), bname(case["measure"], "measure_all"))
+             if n is not None and n in c.macros]
+    if clash:
+        rec("C09_macro_clash(rejected with JaqalError)", es == {"err": "JaqalError"}, f"got {json.dumps(es)[:200]}")
+    if "err" in es:
+        parametrised = any(isinstance(x, dict) and x["params"] for x in (case["prepare"], case["measure"])) or \
+            any(isinstance(x, str) and x in c.native_gates and c.native_gates[x].parameters
+                for x in (case["prepare"], case["measure"]))
+        subs = has_sub(d0["body"]) or any(has_sub(m["body"]) for m in d0["macros"])
+        rec("C09_rejects_only_clash_or_parametrised_bounds", es == {"err": "JaqalError"} and
+            (bool(clash) or (parametrised and subs)), f"got {es}")
 
 
 def _trunc(l, k=20):
